@@ -119,6 +119,9 @@ func setCurrent(s string) {
 // runSession executes one session and checks the oracle.
 func runSession(prof refterm.Profile, opts vaxis.Options, sh shape) {
 	optName := fmt.Sprintf("DisableMouse=%v DisableKittyKeyboard=%v", opts.DisableMouse, opts.DisableKittyKeyboard)
+	if opts.ReportKeyboardEvents || opts.CSIuBitMask != 0 || opts.NoSignals {
+		optName += fmt.Sprintf(" ReportKeyboardEvents=%v CSIuBitMask=%d NoSignals=%v", opts.ReportKeyboardEvents, opts.CSIuBitMask, opts.NoSignals)
+	}
 	setCurrent(prof.String() + " | " + optName + " | " + sh.String())
 	r.Beat(func() (string, any) {
 		hangMu.Lock()
@@ -260,6 +263,9 @@ func coveringSet() []int {
 	return res
 }
 
+var extraOptSets = []vaxis.Options{{ReportKeyboardEvents: true}, {CSIuBitMask: vaxis.CSIuDisambiguate}, {CSIuBitMask: vaxis.CSIuDisambiguate | vaxis.CSIuAlternateKeys},
+	{CSIuBitMask: vaxis.CSIuDisambiguate | vaxis.CSIuReportEvents | vaxis.CSIuAlternateKeys | vaxis.CSIuAllKeys | vaxis.CSIuAssociatedText}, {NoSignals: true}, {NoSignals: true, DisableMouse: true, ReportKeyboardEvents: true}}
+
 func main() {
 	r = explore.Start("C04")
 	nProf := 1 << (refterm.NumGatingCaps + 2)
@@ -322,6 +328,28 @@ func main() {
 				r.Distinct(explore.Hash("c", fmt.Sprint(i, oi)))
 			}
 		}
+		// the remaining options that change what start-up establishes (keyboard level requested,
+		// signal handlers): covering set x all shapes
+		for _, i := range coveringSet() {
+			for oi, o := range extraOptSets {
+				k++
+				if k%n != idx {
+					continue
+				}
+				prof := profileOf(i)
+				if oi%2 == 1 {
+					prof.Caps |= refterm.CapDECRQSS
+					prof.UserCursorStyle = 5
+				}
+				for _, sh := range allShapes {
+					if sh.End == endSignal && o.NoSignals {
+						continue // no handler installed: the signal is not the library's to handle
+					}
+					runSession(prof, o, sh)
+				}
+				r.Distinct(explore.Hash("x", fmt.Sprint(i, oi)))
+			}
+		}
 		r.WorkerDone()
 	}
 	_ = os.Getenv
@@ -329,7 +357,7 @@ func main() {
 	n := r.Get("sessions")
 	r.Finish(explore.Coverage{
 		States: -1, Transitions: n, Traces: n, Evaluations: n,
-		Rule:       "every profile of the gating capability space (2^12 capability subsets x 4 XTVERSION strings) x {DisableMouse} x {DisableKittyKeyboard} x every session New mid* end with |mid|<=bound over {frame, ShowCursor+frame, SetMouseShape+frame, SetAppID, Suspend+Resume, SetTitle} and end in {Close, Close Close, Suspend, Suspend Close, SIGTERM at a quiescent point}; deeper sessions on a pairwise-covering set of profiles with the reporting capabilities on; distinct = (profile, option set) pairs whose sessions all passed",
+		Rule:       "every profile of the gating capability space (2^12 capability subsets x 4 XTVERSION strings) x {DisableMouse} x {DisableKittyKeyboard} x every session New mid* end with |mid|<=bound over {frame, ShowCursor+frame, SetMouseShape+frame, SetAppID, Suspend+Resume, SetTitle} and end in {Close, Close Close, Suspend, Suspend Close, SIGTERM at a quiescent point}; deeper sessions on a pairwise-covering set of profiles with the reporting capabilities on; on the same covering set every session of the first family under six further option sets (ReportKeyboardEvents, three CSIuBitMask values, NoSignals, NoSignals+DisableMouse+ReportKeyboardEvents; no SIGTERM ending without handlers); distinct = (profile, option set) pairs whose sessions all passed",
 		Exhaustive: true,
 		Bounds:     map[string]any{"profiles": nProf, "option_sets": len(optSets), "shapes_all_profiles": len(allShapes), "shapes_covering_set": len(deepShapes), "covering_profiles": len(coveringSet())},
 		Assumptions: []string{
